@@ -97,7 +97,7 @@ for pid, c in sorted(CHECKS.items()):
         "technique": c["technique"],
     })
 
-hooks = ["e59eb74", "a19afd7", "59a77eb", "d9a659f"]
+hooks = ["e59eb74", "a19afd7", "59a77eb", "d9a659f", "41a0e94"]
 manifest = {
     "version": 1,
     "setup_cmd": "./setup.sh",
